@@ -1227,7 +1227,7 @@ class Corr:
                     newcontent.append(self.content[t] / y)
             return Corr(newcontent, prange=self.prange)
 
-        elif isinstance(y, (int, float)):
+        elif isinstance(y, (int, float, complex)):
             if y == 0:
                 raise ValueError('Division by zero will return undefined correlator')
             newcontent = []
